@@ -152,9 +152,6 @@ func TestVerifC15CacheEntry(t *testing.T) {
 			"desc":       map[string]any{"tags": cs.Tags, "rcode": msg.Rcode, "sections": []int{len(msg.Question), len(msg.Answer), len(msg.Ns), len(msg.Extra)}, "lib_ok": werr == nil && !wpanic, "len": len(want)},
 			"nontrivial": e != nil && len(slots) > 0,
 		}
-		if vc15gen.VC15StaleA(msg) {
-			line["fkey"] = "stale-a-rdata"
-		}
 		if len(fails) > 0 {
 			line["go_fail"] = strings.Join(fails, " | ")
 		}
